@@ -48,7 +48,7 @@ const (
 
 // Op is one step of the history.
 type Op struct {
-	K string `json:"k"` // create update delete grant revoke check
+	K string `json:"k"` // create update delete grant revoke check; toggle (span steps only)
 
 	Col int `json:"col,omitempty"` // 0 Author, 1 Book
 	Doc int `json:"doc,omitempty"` // index modulo the documents of Col created so far
@@ -62,6 +62,9 @@ type Op struct {
 	I   *int    `json:"i,omitempty"`   // Author.age / Book.rating
 	Ref *int    `json:"ref,omitempty"` // Book.author → author index (modulo)
 
+	// Tgt (span steps): the step applies to the scenario's target document
+	Tgt bool `json:"tgt,omitempty"`
+
 	Rel string `json:"rel,omitempty"` // reader updater admin
 	To  int    `json:"to,omitempty"`  // 0..2 identity, 3 = "*"
 
@@ -74,7 +77,7 @@ type Op struct {
 
 // Req is one request issued by the requester of a checkpoint.
 type Req struct {
-	K string `json:"k"` // q commits latest tt sub mut get exists docids
+	K string `json:"k"` // q commits latest tt sub span mut get exists docids
 
 	// q: a full GraphQL query with placeholders $A<n> $B<n> (docIDs) and $a<n>.<m> $b<n>.<m> (composite commit cids)
 	Q string `json:"q,omitempty"`
@@ -93,6 +96,7 @@ type Req struct {
 	Input  string `json:"input,omitempty"`  // mut: update input
 	Del    bool   `json:"del,omitempty"`
 	Burst  []Op   `json:"burst,omitempty"`
+	Steps  []Op   `json:"steps,omitempty"` // span: writes and relationship toggles while the subscription stays open
 }
 
 // Case is one generated history.
@@ -476,7 +480,7 @@ func drawReq(t *rapid.T) Req {
 		return Req{K: "tt", Col: rapid.IntRange(0, 1).Draw(t, "col"), Doc: rapid.IntRange(0, 7).Draw(t, "doc"),
 			Ver: rapid.IntRange(0, 4).Draw(t, "ver"), WithDoc: rapid.Bool().Draw(t, "withDoc"),
 			FieldCi: rapid.IntRange(0, 5).Draw(t, "fieldCid") == 0}
-	case k < 85:
+	case k < 83:
 		r := Req{K: "sub", Col: rapid.SampledFrom([]int{0, 0, 1}).Draw(t, "col"), Doc: -1, Ver: -1}
 		if rapid.IntRange(0, 2).Draw(t, "subFilter") == 0 {
 			// the sentinel (k >= 100000, age/rating 1000) must pass the filter. Not on Author.age: a subscription filter
@@ -486,7 +490,33 @@ func drawReq(t *rapid.T) Req {
 		}
 		r.Burst = drawBurst(t)
 		return r
-	case k < 93:
+	case k < 89:
+		// a subscription that stays open across relationship changes on one target document
+		r := Req{K: "span", Col: rapid.SampledFrom([]int{0, 0, 1}).Draw(t, "col"), Doc: rapid.IntRange(0, 5).Draw(t, "doc"), Ver: -1}
+		if rapid.IntRange(0, 3).Draw(t, "subFilter") == 0 {
+			f := []string{"k", "rating"}[r.Col]
+			r.Filter = fmt.Sprintf("%s: {%s: %d}", f, rapid.SampledFrom([]string{"_ge", "_gt", "_ne"}).Draw(t, "sop"), rapid.IntRange(1, 4).Draw(t, "sv"))
+		}
+		n := rapid.IntRange(3, 6).Draw(t, "nsteps")
+		for i := 0; i < n; i++ {
+			switch w := rapid.IntRange(0, 19).Draw(t, "step"); {
+			case w < 9:
+				op := drawWrite(t, []string{"update"})
+				op.Tgt = true
+				r.Steps = append(r.Steps, op)
+			case w < 16:
+				// grant reader to the requester (or to '*'), or revoke what lets it read: decided when it runs
+				to := 0
+				if rapid.IntRange(0, 3).Draw(t, "star") == 0 {
+					to = 3
+				}
+				r.Steps = append(r.Steps, Op{K: "toggle", Tgt: true, To: to})
+			default:
+				r.Steps = append(r.Steps, drawWrite(t, []string{"create", "update"}))
+			}
+		}
+		return r
+	case k < 95:
 		r := Req{K: "mut", Col: rapid.SampledFrom([]int{0, 0, 1}).Draw(t, "col"), Doc: -1, Ver: -1, Del: rapid.IntRange(0, 3).Draw(t, "del") == 0}
 		if rapid.IntRange(0, 3).Draw(t, "byIDs") == 0 {
 			n := rapid.IntRange(1, 3).Draw(t, "nids")
